@@ -1,8 +1,11 @@
 (* Executable entry points for the C12 correspondence shards.
    A case carries the filter set as (kind, enabled, truth row of the REAL `Filter::matches` over the case's
-   messages); messages are their positions 0..n-1.  The model therefore needs no matcher (C11's business). *)
+   messages); messages are their positions 0..n-1.  The model therefore needs no matcher (C11's business).
+   Only the lifecycle filters the export plugin creates itself ({"type":1,"not":true,"lifecycles":l}) are
+   evaluated here by their meaning (matches iff the message's lifecycle is not in l); the harness checks that
+   meaning against the real matcher on every case (tag `lc_filter_not_as_assumed`). *)
 From Coq Require Import List NArith Bool.
-From AdltV Require Import Base.Obs Filter.Sets.
+From AdltV Require Import Base.Obs Base.Res Filter.Sets.
 Import ListNotations.
 Open Scope N_scope.
 
@@ -13,10 +16,14 @@ Record case_C12 := mkCase {
   k_offset : N;                             (* process_stream_new_msgs: new_msgs_offset *)
   k_chunk : N;                              (*                          max_chunk_size *)
   k_exp_enabled : bool;                     (* export plugin: "enabled" *)
-  k_exp_lc : option (list bool);            (* row of the extra negative filter pushed for lifecyclesToKeep *)
   k_from : option N;                        (* recordedTimeFromMs * 1000 *)
   k_to : option N;                          (* recordedTimeToMs * 1000 *)
-  k_rts : list N                            (* reception_time_us per message *)
+  k_rts : list N;                           (* reception_time_us per message *)
+  k_to_keep : N;                            (* number of lifecyclesToKeep entries (named 0..k-1) *)
+  k_handle : bool;                          (* set_lifecycle_read_handle called *)
+  k_lcs : list N;                           (* msg.lifecycle per message (canonical numbering) *)
+  k_known : list bool;                      (* lifecycle present in the evmap table, per message *)
+  k_keeps : list (list bool)                (* keep_lifecycle(entry, msg.ecu, lifecycle of msg): [entry][message] *)
 }.
 
 Definition kind_of_N (k : N) : kind :=
@@ -28,31 +35,55 @@ Fixpoint mk_flts (id : N) (l : list (N * bool * list bool)) : list flt :=
   | (k, e, _) :: r => mkFlt (kind_of_N k) e id :: mk_flts (id + 1) r
   end.
 
-Definition rows_of (c : case_C12) : list (list bool) :=
-  map (fun x => snd x) (k_filters c) ++ match k_exp_lc c with Some r => [r] | None => [] end.
+Definition tab {A} (rows : list (list A)) (d : A) (i j : N) : A := nth (N.to_nat j) (nth (N.to_nat i) rows []) d.
 
-Definition matches_tab (rows : list (list bool)) (f : flt) (m : N) : bool :=
-  nth (N.to_nat m) (nth (N.to_nat (f_id f)) rows []) false.
+(* lifecycle lists <-> filter ids above the configured ones *)
+Definition lc_base : N := 2 ^ 33.
+Definition lc_code (l : list N) : N := fold_left (fun acc x => acc * lc_base + (x + 1)) l 0.
+Fixpoint lc_decode (fuel : nat) (n : N) : list N :=
+  match fuel with
+  | O => []
+  | S f => if n =? 0 then [] else lc_decode f (n / lc_base) ++ [n mod lc_base - 1]
+  end.
+
+Definition matches_case (c : case_C12) (f : flt) (m : N) : bool :=
+  let nf := N.of_nat (length (k_filters c)) in
+  if f_id f <? nf then tab (map (fun x => snd x) (k_filters c)) false (f_id f) m
+  else
+    let code := f_id f - nf in
+    negb (memN (nth (N.to_nat m) (k_lcs c) 0) (lc_decode (N.to_nat (N.size code)) code)).
+
+Definition lc_filter_case (c : case_C12) (l : list N) : flt :=
+  mkFlt Negative true (N.of_nat (length (k_filters c)) + lc_code l).
 
 Fixpoint iota (from : N) (n : nat) : list N :=
   match n with O => [] | S k => from :: iota (from + 1) k end.
+
+Definition matches_tab (rows : list (list bool)) (f : flt) (m : N) : bool := tab rows false (f_id f) m.
 
 Definition o_stream (r : list N * option (N * N)) : otree :=
   T [T (map L (fst r)); match snd r with Some (p, f) => T [L p; L f] | None => T [] end].
 
 Definition run_C12 (c : case_C12) : otree :=
   let fs := mk_flts 0 (k_filters c) in
-  let mt := matches_tab (rows_of c) in
+  let mt := matches_case c in
   let msgs := iota 0 (N.to_nat (k_n c)) in
   let sc := build fs in
-  let lc := match k_exp_lc c with Some _ => Some (mkFlt Negative true (N.of_nat (length (k_filters c)))) | None => None end in
-  let ec := export_build fs lc in
   let rt := fun m => nth (N.to_nat m) (k_rts c) 0 in
-  let psn := process_stream_new mt sc 0 (k_offset c) msgs (N.to_nat (k_chunk c)) in
-  let '(written, nexp, nproc) := export_run mt rt (k_exp_enabled c) ec (k_from c) (k_to c) msgs in
+  let psn := process_stream_new mt sc 0 (k_offset c) msgs (k_chunk c) in
+  let exp :=
+    if k_exp_enabled c then
+      match export_dyn_loop mt rt (fun m => nth (N.to_nat m) (k_lcs c) 0) (fun m => nth (N.to_nat m) (k_known c) false)
+              (fun e m => tab (k_keeps c) false e m) (lc_filter_case c) (k_handle c)
+              (export_dyn_init (lc_filter_case c) fs (iota 0 (N.to_nat (k_to_keep c)))) (k_from c) (k_to c) msgs [] 0 0 with
+      | Ok (written, nexp, nproc, s) => T [T (map L written); L nexp; L nproc; T (map L (x_exported s))]
+      | Panic _ => T [L 1]
+      | OutOfFuel => T [L 2]
+      end
+    else T [T []; L 0; L 0; T []] in
   T [ o_stream (filter_as_streams mt fs msgs (option_map N.to_nat (k_budget c)));
       T [ob (filters_active sc); T (map (fun m => ob (match_filters mt sc m)) msgs)];
       T [T (map L (fst psn)); L (snd psn)];
-      T [T (map L written); L nexp; L nproc] ].
+      exp ].
 
 Definition agree_C12 : case_C12 -> otree -> bool := agree_det run_C12.
